@@ -284,7 +284,7 @@ def check_c15(pid, tier):
     t0 = time.time()
     types = g4.type_lattice("quick")
     if tier == "quick":
-        types = [t for t in types if t.count("[") <= 1]
+        types = [t for t in types if t.count("[") <= 1 or "*tuple" in t]
     # bare TypeVars and Final[...] are field annotations, not codec shapes
     cod = [(pid, t, "default") for t in types if t not in ("TV", "TVA") and not t.startswith("Final[")]
     res2 = runner.run_pool(g4.codec_task, cod, chunks=2)
